@@ -4,6 +4,7 @@
    domain sizes and contents, world contents. *)
 From Coq Require Import List ZArith Bool Arith.
 From Krrood Require Import Base.Sx Eql.Syntax Eql.Sat Eql.Eval Eql.EvalProofs Eql.RunProofs Eql.Show.
+From Krrood Require Import Eql.EvalQInv Eql.EvalQDefs Eql.EvalQProofs Eql.RunQProofs Eql.ShowFrag.
 Import ListNotations.
 Open Scope nat_scope.
 
@@ -43,6 +44,36 @@ Theorem C01_cover_sound : forall W D c pol b b',
   snd_ok pol c = true -> In (b', negb pol) (eval W D c b) ->
   forall rho, extends rho b' -> sat W D rho c = pol.
 Proof. exact eval_sound. Qed.
+
+(* ---- with exists / for_all ----
+   [wfq]: every quantified variable is quantified once and occurs nowhere outside its quantifier;
+   [ok TS [] c] / [ok TC [] c]: static side conditions under which true results tell the truth / every satisfying
+   assignment is covered: no Union below a negation, no quantifier where its FALSE outcome is needed (quantifiers
+   never yield one), every for_all over a quantifier-free, Union-positive condition whose other variables are
+   certainly bound when it is evaluated (must-bind analysis [mb]). *)
+Theorem C01_q_sound_complete : forall W D q c,
+  q_cond q = Some c -> wfq c = true -> ok TS [] c = true -> ok TC [] c = true ->
+  NoDup (flat_map opnd_vars (q_sels q)) ->
+  (forall x, In x (flat_map opnd_vars (q_sels q)) -> ~ In x (qvars c)) ->
+  (forall x, In x (cond_vars c ++ flat_map opnd_vars (q_sels q)) -> D x <> []) ->
+  forall row, In row (run W D q) <-> answer W D q row.
+Proof. exact run_exact_q. Qed.
+
+(* the four aspects of the cover, for every condition (quantifiers included), proved together *)
+Theorem C01_q_cover : forall W D c, holds_TS W D c /\ holds_FS W D c /\ holds_TC W D c /\ holds_FC W D c.
+Proof. exact cover_q. Qed.
+
+(* for quantifier-free conditions the side conditions collapse to the polarity check of C01_sound *)
+Theorem C01_q_conservative : forall c, qfree c = true -> forall bnd,
+  wfq c = true /\ ok TC bnd c = true /\ ok FC bnd c = true /\
+  ok TS bnd c = snd_ok true c /\ ok FS bnd c = snd_ok false c.
+Proof. exact qfree_ok. Qed.
+
+(* the decidable flag the correspondence check computes for every generated case is covered by the theorems *)
+Theorem C01_fragment_flag : forall c, case_in_F01 c = true ->
+  forall row, In row (run (mk_world (e_world c)) (mk_domains (e_doms c)) (e_query c)) <->
+              answer (mk_world (e_world c)) (mk_domains (e_doms c)) (e_query c) row.
+Proof. exact case_in_F01_exact. Qed.
 
 (* ---- outside the fragment the full statement is false of the faithful model: concrete witnesses ---- *)
 (* an(set_of([x, y], not_(or_(x.a == 0, y.a == 0)))): Union under Not returns rows with x.a == 0 *)
@@ -93,12 +124,28 @@ Proof.
   split; [vm_compute; reflexivity|]. vm_compute. discriminate.
 Qed.
 
+(* non-vacuity with quantifiers: x such that some y is larger, and no z is smaller than x.b (for_all closed by x.a >= 0) *)
+Definition w_quant : ecase :=
+  {| e_world := [(1, 1, [(0%nat, VI 0); (1%nat, VI 0)]); (2, 2, [(0%nat, VI 1); (1%nat, VI 0)]); (3, 3, [(0%nat, VI 2); (1%nat, VI 1)])]%Z;
+     e_doms := [(0%nat, [VO 1; VO 2; VO 3]); (1%nat, [VO 1; VO 2; VO 3]); (2%nat, [VO 1; VO 2; VO 3])]%Z;
+     e_query := {| q_sels := [OVar 0];
+                   q_cond := Some (mk_and (mk_and (CCmp OpGe (OAttr (OVar 0) 0) (OLit (VI 0)))
+                                                  (CExists (OVar 1) (CCmp OpGt (OAttr (OVar 1) 0) (OAttr (OVar 0) 0))))
+                                          (CForAll 2 (CCmp OpGe (OAttr (OVar 2) 0) (OAttr (OVar 0) 1)))) |} |}.
+Example C01_q_nonvacuous :
+  case_in_F01 w_quant = true /\ model_differs_as_set w_quant = false /\ spec_rows w_quant <> SL [].
+Proof. split; [vm_compute; reflexivity|]. split; [vm_compute; reflexivity|]. vm_compute. discriminate. Qed.
+
 Print Assumptions C01_spec_exec.
 Print Assumptions C01_complete.
 Print Assumptions C01_sound.
 Print Assumptions C01_sound_complete.
 Print Assumptions C01_cover_complete.
 Print Assumptions C01_cover_sound.
+Print Assumptions C01_q_sound_complete.
+Print Assumptions C01_q_cover.
+Print Assumptions C01_q_conservative.
+Print Assumptions C01_fragment_flag.
 Print Assumptions C01_refuted_notunion.
 Print Assumptions C01_refuted_selprod.
 Print Assumptions C01_refuted_emptydom.
